@@ -145,6 +145,14 @@ func (p *Prog) CheckLocks(o *Obl, spec LockSpec) {
 			default:
 				return "", false
 			}
+			if mutex.Embedded() {
+				// n.Lock() promoted through the embedded mutex
+				if s := info.Selections[sel]; s != nil && s.Kind() == types.MethodVal && len(s.Index()) == 2 {
+					if nt := NamedOf(s.Recv()); nt != nil && nt.Obj() == T.Obj() && st.Field(s.Index()[0]) == mutex {
+						return sel.Sel.Name, true
+					}
+				}
+			}
 			inner, ok := ast.Unparen(sel.X).(*ast.SelectorExpr)
 			if !ok {
 				return "", false
@@ -226,7 +234,27 @@ func (p *Prog) CheckLocks(o *Obl, spec LockSpec) {
 		ast.Inspect(f.Body, func(n ast.Node) bool {
 			if c, ok := n.(*ast.CallExpr); ok {
 				// skip the callee expression itself
-				for _, a := range c.Args {
+				for ai, a := range c.Args {
+					// a method value handed to a same-package function
+					// that only ever calls that parameter is a call made
+					// at this site
+					if callee := Callee(info, c); callee != nil {
+						if cf := p.byObj[callee]; cf != nil && callOnlyParam(cf, ai) {
+							var ref *types.Func
+							switch x := ast.Unparen(a).(type) {
+							case *ast.Ident:
+								ref, _ = info.Uses[x].(*types.Func)
+							case *ast.SelectorExpr:
+								ref, _ = info.Uses[x.Sel].(*types.Func)
+							}
+							if ref != nil {
+								if v := f.Graph().Containing(c, true); v != nil {
+									calls[FuncID(ref)] = append(calls[FuncID(ref)], callSite{f, v})
+									continue
+								}
+							}
+						}
+					}
 					ast.Inspect(a, func(m ast.Node) bool {
 						if id, ok := m.(*ast.Ident); ok {
 							if fn, ok := info.Uses[id].(*types.Func); ok {
@@ -353,4 +381,45 @@ func (p *Prog) LockLevelAt(spec LockSpec, s Site) int {
 		return "", false
 	}, lkNone)
 	return states[s.V]
+}
+
+// callOnlyParam reports whether parameter i of f is used only as the callee
+// of calls and in comparisons with nil.
+func callOnlyParam(f *Func, i int) bool {
+	ps := f.Params(false)
+	if i >= len(ps) || ps[i] == nil {
+		return false
+	}
+	if _, ok := ps[i].Type().Underlying().(*types.Signature); !ok {
+		return false
+	}
+	info := f.Info()
+	ok := true
+	var walk func(n ast.Node, parent ast.Node)
+	stack := []ast.Node{}
+	ast.Inspect(f.Body, func(n ast.Node) bool {
+		if n == nil {
+			stack = stack[:len(stack)-1]
+			return true
+		}
+		if id, isID := n.(*ast.Ident); isID && info.Uses[id] == ps[i] {
+			parent := stack[len(stack)-1]
+			switch x := parent.(type) {
+			case *ast.CallExpr:
+				if ast.Unparen(x.Fun) != ast.Expr(id) {
+					ok = false
+				}
+			case *ast.BinaryExpr:
+				if !(IsNilIdent(info, x.X) || IsNilIdent(info, x.Y)) {
+					ok = false
+				}
+			default:
+				ok = false
+			}
+		}
+		stack = append(stack, n)
+		return true
+	})
+	_ = walk
+	return ok
 }
